@@ -630,7 +630,7 @@ static int run_batch() {
             printf("HARNESS-NONDETERMINISM: run %llu tag %s does not reproduce identically (fp %s vs %s)\n", (unsigned long long)idx, tag.c_str(), u64hex(a.fp).c_str(), u64hex(b.fp).c_str());
             ++harness_errors; continue;
         }
-        Shrinker sh; sh.tag = tag; sh.budget = O.shrink_budget;
+        Shrinker sh; sh.tag = tag; sh.budget = H->time_limit(plan) > 60 ? 0 : O.shrink_budget;   // a run that takes minutes is reported as it is
         Json min = sh.run(cs);
         Outcome fin = evaluate(min);
         std::string msg = fin.crashed ? fin.crash_msg : R.viol_msg[tag];
